@@ -1,7 +1,9 @@
 """C15: past-LTL formulas as Python tuples, generators, printers.
 
 Formula (source language of omega.logic.past.translate, Boolean fragment):
-    ('v', name) | ('c', bool) | ('~', f) | (op, f, g) for op in BINOPS
+    ('v', name) | ('a', key) | ('c', bool) | ('~', f) | (op, f, g) for op in
+    BINOPS  -- ('a', key) is an arithmetic comparison, opaque to the
+    translation, identified by the canonical text `key` of its parse tree
     | ('ite', c, a, b) | ('-X', f) | ('--X', f) | ('-[]', f) | ('-<>', f)
     | ('S', f, g) | ('[]', f) | ('<>', f) | ('U', f, g)
 """
@@ -23,47 +25,59 @@ SPELL = {
 }
 
 
-def show(f, rng=None):
-    """Concrete syntax, fully parenthesised; rng picks among synonyms."""
+def show(f, rng=None, atom_text=None):
+    """Concrete syntax, fully parenthesised; rng picks among synonyms;
+    atom_text maps the key of an atom to its source text."""
     def sp(k):
         alts = SPELL[k]
         return alts[0] if rng is None else rng.choice(alts)
     k = f[0]
     if k == 'v':
         return f[1]
+    if k == 'a':
+        return (atom_text or {}).get(f[1], f[1])
     if k == 'c':
         return sp(f[1])
     if k == '~':
-        return f'({sp("~")} {show(f[1], rng)})'
+        return f'({sp("~")} {show(f[1], rng, atom_text)})'
     if k in PAST_UN or k in FUT_UN:
-        return f'({k} {show(f[1], rng)})'
+        return f'({k} {show(f[1], rng, atom_text)})'
     if k == 'ite':
-        a, b, c = (show(x, rng) for x in f[1:])
+        a, b, c = (show(x, rng, atom_text) for x in f[1:])
         if rng is not None and rng.random() < 0.5:
             return f'(IF {a} THEN {b} ELSE {c})'
         return f'ite({a}, {b}, {c})'
     if k in BINOPS:
-        return f'({show(f[1], rng)} {sp(k)} {show(f[2], rng)})'
+        return f'({show(f[1], rng, atom_text)} {sp(k)} {show(f[2], rng, atom_text)})'
     if k in ('S', 'U'):
-        return f'({show(f[1], rng)} {k} {show(f[2], rng)})'
+        return f'({show(f[1], rng, atom_text)} {k} {show(f[2], rng, atom_text)})'
     raise ValueError(f)
 
 
+def atomize(f, keys):
+    """Turn the variables whose name is in `keys` into atoms."""
+    if f[0] == 'v':
+        return ('a', f[1]) if f[1] in keys else f
+    if f[0] in ('a', 'c'):
+        return f
+    return (f[0],) + tuple(atomize(x, keys) for x in f[1:])
+
+
 def depth(f):
-    if f[0] in ('v', 'c'):
+    if f[0] in ('v', 'a', 'c'):
         return 0
     return 1 + max(depth(x) for x in f[1:])
 
 
 def size(f):
-    if f[0] in ('v', 'c'):
+    if f[0] in ('v', 'a', 'c'):
         return 1
     return 1 + sum(size(x) for x in f[1:])
 
 
 def subformulas(f):
     yield f
-    if f[0] not in ('v', 'c'):
+    if f[0] not in ('v', 'a', 'c'):
         for x in f[1:]:
             yield from subformulas(x)
 
@@ -73,13 +87,13 @@ def operators(f):
 
 
 def variables(f):
-    return sorted({g[1] for g in subformulas(f) if g[0] == 'v'})
+    return sorted({g[1] for g in subformulas(f) if g[0] in ('v', 'a')})
 
 
 def future_under_past(f, under=False):
     """Does a future operator occur below a past operator?"""
     k = f[0]
-    if k in ('v', 'c'):
+    if k in ('v', 'a', 'c'):
         return False
     if k in FUT_UN + ('U',) and under:
         return True
@@ -137,6 +151,9 @@ def coq_form(f):
     k = f[0]
     if k == 'v':
         return f'(FVar "{f[1]}")'
+    if k == 'a':
+        assert '"' not in f[1]
+        return f'(FAtom "{f[1]}")'
     if k == 'c':
         return f'(FConst {"true" if f[1] else "false"})'
     if k in _UN:
@@ -157,6 +174,9 @@ def coq_tform(t):
     k = t[0]
     if k == 'v':
         return f'(TVar "{t[1]}")'
+    if k == 'a':
+        assert '"' not in t[1]
+        return f'(TAtom "{t[1]}")'
     if k == 'c':
         return f'(TConst {"true" if t[1] else "false"})'
     if k == '~':
